@@ -76,6 +76,44 @@ def _manager_scan(rep: C.Report, tier: str):
                           info, finding_key="C05:manager-scan")
 
 
+def _independent_mismatch(th, h, grid):
+    """Tn(shock) - Tn on the velocity grid from an independent solution of energy-, momentum- and entropy-flux conservation across the wall
+    (unknowns T+, T-; v- = min(vw, cs-(T-)); v+ from T+ gamma+ = T- gamma-), each point started from the previous one.  None if any point fails."""
+    from scipy.optimize import fsolve
+    Tn = h.Tnucl
+    out = []
+    x = None
+    for vw in grid:
+        def res(y, vw=vw):
+            Tp, Tm = abs(y[0]), abs(y[1])
+            vm2 = min(vw * vw, float(th.csqLowT(Tm)))
+            vp2 = 1.0 - Tp * Tp * (1.0 - vm2) / (Tm * Tm)
+            if not 0 < vp2 < 1:
+                return [1e3 * (1 + abs(vp2)), 1e3]
+            vp, vm = math.sqrt(vp2), math.sqrt(vm2)
+            f = HC.fluxes(th, vp, vm, Tp, Tm)
+            return [(f[0] - f[1]) / abs(f[1]), (f[2] - f[3]) / abs(f[3])]
+        if x is None:
+            try:
+                vp0, vm0, Tp0, Tm0 = map(float, h.matchDeflagOrHyb(float(vw)))
+            except Exception:  # noqa: BLE001
+                return None
+            x = [Tp0, Tm0]
+        sol, _, ier, _ = fsolve(res, x, full_output=True, xtol=1e-13)
+        r_ = res(sol)
+        if max(abs(r_[0]), abs(r_[1])) > 1e-9:
+            return None
+        x = [abs(sol[0]), abs(sol[1])]
+        Tp, Tm = x
+        vm2 = min(vw * vw, float(th.csqLowT(Tm)))
+        vp = math.sqrt(1.0 - Tp * Tp * (1.0 - vm2) / (Tm * Tm))
+        try:
+            out.append(float(h.solveHydroShock(float(vw), vp, Tp)) - Tn)
+        except Exception:  # noqa: BLE001
+            return None
+    return out
+
+
 def search(rep: C.Report, tier: str, broken):
     import models
     r = C.rng("C05")
@@ -142,8 +180,15 @@ def search(rep: C.Report, tier: str, broken):
                     signs.append(math.nan)
             info["inner_solves_converged"] = conv
             if not conv:
-                rep.count("sentinel case skipped: inner 2x2 solve did not converge on the grid")
-                continue
+                # the code's own 2x2 solve did not converge somewhere on the grid (its initial guess may be at fault): judge the sentinel with an
+                # INDEPENDENT solution of the same three conservation laws, continued in vw from the slow end of the window
+                indep = _independent_mismatch(th, h, grid)
+                if indep is None:
+                    rep.count("sentinel case skipped: neither the code's nor the independent 2x2 solve converged on the grid")
+                    continue
+                rep.count("sentinel judged with the independent LTE solve")
+                signs = indep
+                info["mismatch_from"] = "independent continuation solve (harness/props/C05._independent_mismatch)"
             info.update(grid=list(map(float, grid)), mismatch=signs)
             fin = [s for s in signs if math.isfinite(s)]
             if cls == "static" and fin and not fin[0] < 0:
